@@ -5,6 +5,7 @@ import (
 	"encoding/binary"
 	"encoding/hex"
 	"fmt"
+	"strings"
 
 	"github.com/free5gc/nas/security"
 
@@ -203,6 +204,45 @@ func c07Exec(c *core.Ctx, in cryptoCase) {
 	}
 }
 
+// cryptoHistory is a self-contained sequence of calls with one parameter tuple (replayable on its own).
+type cryptoHistory struct {
+	Mac     bool   `json:"mac"`
+	Alg     int    `json:"alg"`
+	Via     string `json:"via"`
+	Key     string `json:"key"`
+	Count   uint32 `json:"count"`
+	Bearer  uint8  `json:"bearer"`
+	Dir     uint8  `json:"direction"`
+	Pat     int    `json:"pattern"`
+	Lengths []int  `json:"bit_lengths"`
+}
+
+func cryptoHistoryExec(c *core.Ctx, in cryptoHistory) {
+	sub := core.NewCtx(c.Prop, c.Tier, c.Seed, 0, 1)
+	for i, bits := range in.Lengths {
+		if in.Via == "wrapper" && bits%8 != 0 || in.Alg == 2 && bits%8 != 0 || in.Mac && bits == 0 {
+			continue
+		}
+		nbytes := (bits + 7) / 8
+		payload := patPayload(in.Pat, nbytes)
+		if in.Mac && bits%8 != 0 {
+			payload[nbytes-1] &= 0xFF << uint(8-bits%8)
+		}
+		cs := cryptoCase{Alg: in.Alg, Via: in.Via, Key: in.Key, Count: in.Count, Bearer: in.Bearer, Dir: in.Dir, Bits: bits, Payload: hex.EncodeToString(payload)}
+		sub.Begin("case", "", cs)
+		if in.Mac {
+			c07Exec(sub, cs)
+		} else {
+			c06Exec(sub, cs)
+		}
+		for k, v := range sub.Viols {
+			parts := strings.SplitN(k, "|", 2)
+			c.Fail("history|"+parts[1], fmt.Sprintf("call %d of the sequence %v (same key, COUNT, bearer, direction): %s", i+1, in.Lengths, v.What))
+			return
+		}
+	}
+}
+
 // enumeration shared by C06 and C07 ------------------------------------------------------------------
 
 type cryptoEnum struct {
@@ -361,6 +401,30 @@ func (e *cryptoEnum) run() {
 			}
 		}
 	}
+	// history family: the functions must be pure — the same key/COUNT/bearer/direction used repeatedly with
+	// ascending, descending and repeated lengths (a keystream cache or other state carried between calls shows here)
+	for alg := 1; alg <= 3; alg++ {
+		for ki, k := range [][16]byte{pubKey1, pubKey2} {
+			if !e.mine() {
+				continue
+			}
+			for _, via := range vias {
+				var asc, desc []int
+				for b := 1; b <= 96; b++ {
+					asc = append(asc, b)
+					desc = append(desc, 97-b)
+				}
+				seqs := [][]int{asc, desc, {5, 29, 5, 29, 30, 31, 32, 33, 1, 64, 63, 65, 40, 40, 8, 16, 24, 200, 199, 201, 8}}
+				for si, sq := range seqs {
+					h := cryptoHistory{Mac: e.mac, Alg: alg, Via: via, Key: hex.EncodeToString(k[:]), Count: 0x00000777 + uint32(si), Bearer: uint8(3 + ki), Dir: uint8(ki), Pat: 1 + si%3, Lengths: sq}
+					e.n += int64(len(sq))
+					if e.c.Begin("history", fmt.Sprintf("alg%d", alg), h) {
+						cryptoHistoryExec(e.c, h)
+					}
+				}
+			}
+		}
+	}
 	e.c.Add("evaluations", e.n)
 }
 
@@ -370,13 +434,15 @@ func cryptoRule(what string) func(string) string {
 		if tier == "thorough" {
 			d = "single key deviations at every length 0..320; the complete count x bearer x direction grid at the edge lengths; all pairs (key, count) of deviations x direction x bearer in {0,1,16,31}; long inputs up to 65 528 bits hitting every residue mod 32"
 		}
-		return what + " Deviation-bounded enumeration over (key, COUNT, bearer, direction, length, pattern) from published defaults: key alphabet = 2 published keys, zero, ones, the 128 single-bit keys, the 16 single-octet keys; COUNT alphabet = 0, 1, FFFFFFFF, 00FFFFFF, 7FFFFFFF, A5A5A5A5 and the 32 single-bit counts; all 32 bearers x 2 directions; every bit length 0..320 with 4 content patterns; " + d + "; through both the wrapper and the per-algorithm functions. A case is distinct by its parameter tuple; component checks (hooks) compare every table entry and component function exhaustively."
+		return what + " Deviation-bounded enumeration over (key, COUNT, bearer, direction, length, pattern) from published defaults: key alphabet = 2 published keys, zero, ones, the 128 single-bit keys, the 16 single-octet keys; COUNT alphabet = 0, 1, FFFFFFFF, 00FFFFFF, 7FFFFFFF, A5A5A5A5 and the 32 single-bit counts; all 32 bearers x 2 directions; every bit length 0..320 with 4 content patterns; " + d + "; through both the wrapper and the per-algorithm functions; plus call histories (one parameter tuple reused with ascending, descending and repeated lengths). A case is distinct by its parameter tuple; component checks (hooks) compare every table entry and component function exhaustively."
 	}
 }
 
 func init() {
 	core.RegisterKind("C06", "case", c06Exec)
 	core.RegisterKind("C07", "case", c07Exec)
+	core.RegisterKind("C06", "history", cryptoHistoryExec)
+	core.RegisterKind("C07", "history", cryptoHistoryExec)
 	core.RegisterProp(&core.PropSpec{
 		ID: "C06", Level: "exploration",
 		Run: func(c *core.Ctx) {
